@@ -19,13 +19,13 @@ func init() {
 		ID: "C03", Level: "exploration", Primary: "cases", EvalCount: "requests_routed",
 		Rule: "route tables = every sequence of up to k routes (k=2 quick, 3 thorough) over a 15-spec alphabet (bind; search with base in {unset,dc=a} x filter in {unset,(cn=x)} x scope in {unset,2}; " +
 			"extended A/B/StartTLS-name; modify; add; delete) x {no default, default, default registered twice} x {no unbind route, unbind registered twice}, plus random tables up to length 8 with case variants and scope 1; " +
-			"each table is served on a fresh connection the full 34-request alphabet (bind; search over 3 bases x 3 filters x 3 scopes; extended A/B/C; modify; add; delete) plus Unbind, all pipelined; every fifth table is served over a TLS listener, every fifth on a server created WithDisablePanicRecovery, and every other table spells a zero scope out as WithScope(BaseObject); in every fifth table the route handlers (except those of StartTLS-named routes, which run on the read loop) panic right after they have answered. " +
+			"each table is served on a fresh connection the full 40-request alphabet (bind; search over 3 bases x 3 filters x 3 scopes; six spellings - compact, with blanks next to the comma or at the ends, around an escaped comma - of two-RDN base DNs, which the random tables also use as route bases; extended A/B/C; modify; add; delete) plus Unbind, all pipelined; every seventh table by a server of its own whose empty mux was attached (Server.Router) before the routes were registered, every fifth table is served over a TLS listener, every fifth on a server created WithDisablePanicRecovery, and every other table spells a zero scope out as WithScope(BaseObject); in every fifth table the route handlers (except those of StartTLS-named routes, which run on the read loop) panic right after they have answered. " +
 			"Oracle: 15-line reference model (first matching route, else last-registered default, else built-in refusal). distinct_nontrivial = distinct (route-table signature, request, outcome) triples observed",
 		Assume: []string{"re-registering the default or unbind route replaces the earlier registration (last registration wins)"},
 		Phases: func(tier string, seed int64) []Phase {
 			return []Phase{{Name: "tables", Run: c03Tables}, {Name: "goldap-noroute", Run: c03GoLDAP}}
 		},
-		MinObserved: []string{"requests_routed", "outcome/builtin", "outcome/default", "outcome/first_of_several", "outcome/shadowed_later_route", "tables_over_tls", "tables_whose_route_handlers_panic_after_replying", "requests_carrying_controls", "tables_on_a_server_without_panic_recovery", "search_routes_registered_with_an_explicit_zero_scope"},
+		MinObserved: []string{"requests_routed", "outcome/builtin", "outcome/default", "outcome/first_of_several", "outcome/shadowed_later_route", "tables_over_tls", "tables_whose_route_handlers_panic_after_replying", "requests_carrying_controls", "tables_on_a_server_without_panic_recovery", "search_routes_registered_with_an_explicit_zero_scope", "search_routes_with_a_base_dn_of_several_rdns", "tables_whose_routes_were_registered_after_the_mux_was_attached"},
 	})
 }
 
@@ -74,6 +74,8 @@ const (
 	extC = "1.1.1.3"
 )
 
+var c03SpacedBases = []string{"ou=p,dc=a", "ou=p, dc=a", "OU=P,DC=A ", " ou=p,dc=a", "cn=s\\, j,dc=a", "cn=s\\,j,dc=a"}
+
 func c03RouteAlphabet() []rspec {
 	out := []rspec{{Kind: "bind"}}
 	for _, b := range []string{"", "dc=a"} {
@@ -95,6 +97,11 @@ func c03Requests() []creq {
 				out = append(out, creq{Kind: "search", Base: b, Filter: f, Scope: s})
 			}
 		}
+	}
+	// base DNs of more than one RDN, spelled compactly and with blanks (next to the comma, at the ends, around an escaped
+	// comma): to a route these are different strings
+	for _, b := range c03SpacedBases {
+		out = append(out, creq{Kind: "search", Base: b, Filter: "(cn=x)", Scope: 2})
 	}
 	out = append(out, creq{Kind: "ext", Name: extA}, creq{Kind: "ext", Name: extB}, creq{Kind: "ext", Name: extC}, creq{Kind: "ext", Name: sber.OIDStartTLS}, creq{Kind: "modify"}, creq{Kind: "add"}, creq{Kind: "delete"})
 	for i := range out {
@@ -227,57 +234,78 @@ func c03RunTableOn(c *Ctx, srv *Srv, ctc *tls.Config, t c03Table, reqs []creq, n
 			}
 		}
 	}
-	m, _ := gldap.NewMux()
-	for i, r := range t.Routes {
-		h := mk(fmt.Sprintf("R%d", i), true)
-		if r.Kind == "ext" && r.Name == sber.OIDStartTLS {
-			// a StartTLS-named route runs on the connection's read loop: a panic there ends the connection (C07's
-			// subject), so this handler does not panic
-			h = mk(fmt.Sprintf("R%d", i), false)
-		}
-		var err error
-		switch r.Kind {
-		case "bind":
-			err = m.Bind(h)
-		case "search":
-			var opts []gldap.Option
-			if r.Base != "" {
-				opts = append(opts, gldap.WithBaseDN(r.Base))
+	var regErr error
+	register := func(m *gldap.Mux) {
+		for i, r := range t.Routes {
+			h := mk(fmt.Sprintf("R%d", i), true)
+			if r.Kind == "ext" && r.Name == sber.OIDStartTLS {
+				// a StartTLS-named route runs on the connection's read loop: a panic there ends the connection (C07's
+				// subject), so this handler does not panic
+				h = mk(fmt.Sprintf("R%d", i), false)
 			}
-			if r.Filter != "" {
-				opts = append(opts, gldap.WithFilter(r.Filter))
-			}
-			if r.Scope != 0 || tableNo%2 == 0 {
-				// every other table spells the zero scope out: WithScope(BaseObject) is "no scope criterion" as well
-				opts = append(opts, gldap.WithScope(gldap.Scope(r.Scope)))
-				if r.Scope == 0 {
-					c.Count("search_routes_registered_with_an_explicit_zero_scope", 1)
+			var err error
+			switch r.Kind {
+			case "bind":
+				err = m.Bind(h)
+			case "search":
+				var opts []gldap.Option
+				if r.Base != "" {
+					opts = append(opts, gldap.WithBaseDN(r.Base))
 				}
+				if r.Filter != "" {
+					opts = append(opts, gldap.WithFilter(r.Filter))
+				}
+				if r.Scope != 0 || tableNo%2 == 0 {
+					// every other table spells the zero scope out: WithScope(BaseObject) is "no scope criterion" as well
+					opts = append(opts, gldap.WithScope(gldap.Scope(r.Scope)))
+					if r.Scope == 0 {
+						c.Count("search_routes_registered_with_an_explicit_zero_scope", 1)
+					}
+				}
+				err = m.Search(h, opts...)
+			case "ext":
+				err = m.ExtendedOperation(h, gldap.ExtendedOperationName(r.Name))
+			case "modify":
+				err = m.Modify(h)
+			case "add":
+				err = m.Add(h)
+			case "delete":
+				err = m.Delete(h)
 			}
-			err = m.Search(h, opts...)
-		case "ext":
-			err = m.ExtendedOperation(h, gldap.ExtendedOperationName(r.Name))
-		case "modify":
-			err = m.Modify(h)
-		case "add":
-			err = m.Add(h)
-		case "delete":
-			err = m.Delete(h)
+			if err != nil {
+				regErr = err
+				return
+			}
 		}
-		if err != nil {
-			c.Inconclusive("route registration failed: " + err.Error())
+		for i := 1; i <= t.NDefault; i++ {
+			m.DefaultRoute(mk(fmt.Sprintf("D%d", i), false))
+		}
+		for i := 1; i <= t.NUnbind; i++ {
+			m.Unbind(mk(fmt.Sprintf("U%d", i), false))
+		}
+	}
+	// every seventh table (on the plain, recovering server) is served by a server of its own whose (still empty) mux
+	// was attached with Server.Router BEFORE the routes were registered on it - Run comes last either way
+	if tableNo%7 == 3 && ctc == nil && len(noRecover) == 0 {
+		fresh, err := startSrv(SrvCfg{RouterFirst: true}, register)
+		if err != nil || regErr != nil {
+			c.Inconclusive(fmt.Sprintf("router-first server: %v %v", err, regErr))
 			return
 		}
-	}
-	for i := 1; i <= t.NDefault; i++ {
-		m.DefaultRoute(mk(fmt.Sprintf("D%d", i), false))
-	}
-	for i := 1; i <= t.NUnbind; i++ {
-		m.Unbind(mk(fmt.Sprintf("U%d", i), false))
-	}
-	if err := srv.S.Router(m); err != nil {
-		c.Inconclusive("Router: " + err.Error())
-		return
+		defer fresh.StopWithin(patience)
+		srv = fresh
+		c.Count("tables_whose_routes_were_registered_after_the_mux_was_attached", 1)
+	} else {
+		m, _ := gldap.NewMux()
+		register(m)
+		if regErr != nil {
+			c.Inconclusive("route registration failed: " + regErr.Error())
+			return
+		}
+		if err := srv.S.Router(m); err != nil {
+			c.Inconclusive("Router: " + err.Error())
+			return
+		}
 	}
 	cl, err := dialRaw(srv.Addr, ctc)
 	if err != nil {
@@ -482,7 +510,10 @@ func c03Tables(c *Ctx) {
 		for j, n := 0, 1+r.Intn(8); j < n; j++ {
 			sp := pick(r, alpha)
 			if sp.Kind == "search" {
-				sp.Base = pick(r, []string{"", "dc=a", "DC=A", "dc=b", "Dc=a"})
+				sp.Base = pick(r, append([]string{"", "dc=a", "DC=A", "dc=b", "Dc=a"}, c03SpacedBases...))
+				if strings.Contains(sp.Base, ",") {
+					c.Count("search_routes_with_a_base_dn_of_several_rdns", 1)
+				}
 				sp.Filter = pick(r, []string{"", "(cn=x)", "(CN=X)", "(cn=y)", "(Cn=X)"})
 				sp.Scope = r.Intn(3)
 			}
